@@ -12,6 +12,8 @@ pub enum Target {
     C02,
     C16,
     C17,
+    C03,
+    C06,
 }
 impl Target {
     fn prefix(&self) -> &'static str {
@@ -20,6 +22,8 @@ impl Target {
             Target::C02 => "ledger:",
             Target::C16 => "structure:",
             Target::C17 => "caps:",
+            Target::C03 => "value:",
+            Target::C06 => "accrual:",
         }
     }
 }
@@ -29,6 +33,8 @@ struct SeqStats {
     ok_ops: Vec<&'static str>,
     fails: Vec<(&'static str, u64)>,
     zero_ops: u64,
+    c03_nontrivial: u64,
+    c06_probes: u64,
     skips: Vec<(&'static str, &'static str)>,
     borrow_ok: bool,
     accrued_interest: bool,
@@ -47,6 +53,8 @@ struct Monitors {
     c02: C02State,
     c16: C16State,
     c17: C17State,
+    c03: C03State,
+    c06: C06State,
 }
 
 /// Run one (world, ops) case. Returns Err((signature, message)) for the first finding of the
@@ -59,7 +67,7 @@ fn run_case(target: Target, spec: &WorldSpec, ops: &[Op], stats: &mut SeqStats, 
             return Ok(());
         }
     };
-    let mut m = Monitors { c01: Default::default(), c02: Default::default(), c16: Default::default(), c17: Default::default() };
+    let mut m = Monitors { c01: Default::default(), c02: Default::default(), c16: Default::default(), c17: Default::default(), c03: Default::default(), c06: Default::default() };
     for op in ops {
         let pre: StoreSnap = r.snap.clone();
         let step = r.step(op);
@@ -69,6 +77,18 @@ fn run_case(target: Target, spec: &WorldSpec, ops: &[Op], stats: &mut SeqStats, 
         findings.extend(c02_step(&mut m.c02, &pre, &post, &step));
         findings.extend(c16_step(&mut m.c16, &pre, &post, &step, &r.w));
         findings.extend(c17_step(&mut m.c17, &pre, &post, &step, &r.w));
+        let (f3, nt3) = c03_step(&mut m.c03, &pre, &post, &step, &r.w);
+        findings.extend(f3);
+        if nt3 {
+            stats.c03_nontrivial += 1;
+        }
+        if matches!(target, Target::C06) {
+            let (f6, nt6) = c06_step(&mut m.c06, &pre, &post, &step, &r.w);
+            findings.extend(f6);
+            if nt6 {
+                stats.c06_probes += 1;
+            }
+        }
         // statistics for the non-trivial rules
         let zero_amount = matches!(step.op, Op::Deposit { .. } | Op::Withdraw { all: false, .. } | Op::Borrow { .. } | Op::Repay { all: false, .. }) && step.amount == 0;
         if step.ok && !step.skipped && zero_amount {
@@ -146,6 +166,8 @@ fn nontrivial(target: Target, s: &SeqStats) -> bool {
         Target::C02 => s.shared_bank && s.closed_position && s.liq_or_bankr,
         Target::C16 => s.max_positions >= 3 && (s.closed_position || s.liq_or_bankr),
         Target::C17 => s.cap_frontier || s.upto_accrual,
+        Target::C03 => s.c03_nontrivial > 0,
+        Target::C06 => s.c06_probes > 0,
     }
 }
 
@@ -154,6 +176,8 @@ fn rule(target: Target) -> &'static str {
         Target::C01 => "stateful proptest: generated worlds (1-4 banks; SPL/Token-2022/transfer-fee mints; fixed/Pyth/Switchboard oracles; generated curves, fees, weights, limits) x generated op sequences executed through marginfi::entry; after every committed transaction per bank: d(vault) >= d(A*asv - L*lsv + fees) - eps and the cumulative form, eps derived from share magnitudes. Non-trivial = sequence with a successful borrow, an accrual that changed the liability share value, and a later successful value-removing op (withdraw / repay_all / liquidate / bankruptcy / collect). Distinct = hash of the successful-op name sequence + world shape.",
         Target::C02 => "stateful proptest (same campaign): after every committed transaction, for every bank d(total shares) == sum over ALL accounts of d(position shares) bit-exactly, except close_balance / account-close which may abandon < 0.0001 units / < 1 share; running check total - sum(positions) == abandoned dust. Non-trivial = >= 2 accounts hold the same bank, a position was fully closed, and a liquidation/bankruptcy/receivership executed.",
         Target::C16 => "stateful proptest (same campaign): after every committed transaction every MarginfiAccount in the store: distinct banks, one side per bank, sorted active slots, tag rules, <= 8 integration / <= 16 positions, tags stable; close only when empty & unflagged; disabled accounts cannot act; transfer moves positions once. Non-trivial = an account reached >= 3 positions and a position was closed or a liquidation/bankruptcy ran.",
+        Target::C03 => "stateful proptest (same campaign): for every successful deposit/withdraw/borrow/repay (+all variants) compare, in exact rationals at the share values the instruction transacted at, tokens the user received vs value removed from the position, and value credited vs tokens that reached the vault (few-ulp allowance); withdraw_all pays <= floor(value), repay_all brings >= debt. Non-trivial = amount > 0 on a bank whose share values differ from 1 (reached by real accrual or real loss socialisation). Plus the exhaustive round-trip driver (see labels).",
+        Target::C06 => "stateful proptest (same campaign) + differential probe: after every successful transacting instruction bank.last_update == clock and share values never decrease; from the pre-state, [accrue; op] and [op] must end in bit-identical bank totals/share values/fees/vaults and user shares (an instruction that transacts against stale share values differs); accrue twice at one timestamp leaves the bank bytes unchanged. Non-trivial = probe executed on a bank with loans and dt > 0. Plus the pure accrual-function check (labels accrual:*).",
         Target::C17 => "stateful proptest (same campaign, limits drawn from {0, small, mid, u64::MAX}): after successful deposit A*asv < deposit_limit, after successful borrow L*lsv < borrow_limit and A*asv >= L*lsv, after withdraw A*asv >= L*lsv, deposit_up_to_limit never fails with the capacity error. Non-trivial = a capacity/limit/utilisation rejection was observed in the sequence (the frontier was reached) or an up-to-limit deposit accrued interest inside the instruction.",
     }
 }
